@@ -1,6 +1,7 @@
 import BigtoolsModel.Driver.Util
 import BigtoolsModel.PyBase
 import BigtoolsModel.PyBins
+import BigtoolsModel.PyOob
 /-! Driver command `pyvalues`: the arrays `values()` of the Python binding returns, from the per-base routines
     (`PYB.perBaseG`, theorem `PYB.perBase_spec` / `values_spec`) and the exact-bin routines of integral width
     (`PYN.toArrayBins` / `PYN.toEntryArrayBins`, repaired; theorems `PBP.bins_spec`, `PEB.bed_bins_spec` about their
@@ -43,20 +44,18 @@ def pyValues (c : Case) : List String :=
       | .panic => s!"P {i} panic"
       | .ok cells =>
         let txt := cells.zipIdx.map fun (x, k) =>
-          let p := start + (k : Int)
-          if p < 0 ∨ p ≥ len then "o" else match x with | some v => s!"{v}/1" | none => "m"
+          -- the out-of-bounds fill as the code computes it (`PYO.filled`; theorem `PYO.oob_fill_per_base`: position < 0 or ≥ length)
+          if PYO.filled (-start) (len - start) L L k then "o" else match x with | some v => s!"{v}/1" | none => "m"
         s!"P {i} ok " ++ joinSp txt
     else
       let nb := nat bins
       if !exact || nb == 0 || L % nb != 0 then s!"P {i} na" else
-      let w := L / nb
       let m : Int := if missing == "nan" then 0 else int missing
       let res := if bed then PYN.toEntryArrayBins PYN.repaired sm m start L nb bedIn
                  else PYN.toArrayBins PYN.repaired sm start L nb wigIn
       let txt := res.zipIdx.map fun (x, k) =>
-        let lo := start + ((k * w : Nat) : Int)
-        let hi := lo + (w : Int)
-        if lo < 0 ∨ hi > len then "o" else cellText x
+        -- `PYO.oob_fill_spec`: exactly the cells whose stretch starts below 0 or reaches beyond the chromosome's end
+        if PYO.filled (-start) (len - start) L nb k then "o" else cellText x
       s!"P {i} ok " ++ joinSp txt
 
 end Drv
